@@ -154,8 +154,11 @@ impl Sub for I64 {
         match (self, rhs) {
             (Num(lhs), Num(rhs)) => match lhs.checked_sub(rhs) {
                 Some(n) => Num(n),
+                // `lhs - rhs` can only exceed i64::MAX if rhs < 0 (this
+                // includes 0 - i64::MIN) and only fall below i64::MIN if
+                // rhs > 0
                 None => {
-                    if lhs > 0 && rhs < 0 || lhs < 0 && rhs > 0 {
+                    if rhs < 0 {
                         PlusInf
                     } else {
                         MinusInf
